@@ -125,10 +125,12 @@ func (wal *BaseWAL) OnStart() error {
 	size, err := wal.group.Head.Size()
 	if err != nil {
 		return err
-	} else if size == 0 && wal.group.ReadGroupInfo().TotalSize == 0 {
+	} else if size == 0 && wal.group.MaxIndex() == 0 {
 		// The log is empty (an empty head alone does not say so: right after a
 		// rotation the head is empty while the rotated files hold the log, and a
 		// second #ENDHEIGHT 0 would hide the first height's records from replay).
+		// Only the log's own files count: a head that was cut back to nothing by the
+		// repair of a torn first record leaves a .CORRUPTED copy next to it.
 		if err := wal.WriteSync(EndHeightMessage{0}); err != nil {
 			return err
 		}
